@@ -9,18 +9,8 @@ EXTENDS ConfigInherit, TraceLib
 VARIABLE l
 Cfg(e) == {[name |-> e.defs[k].name, src |-> e.defs[k].src, inh |-> e.defs[k].inh, keys |-> AsSet(e.defs[k].keys)] : k \in DOMAIN e.defs}
 Judge(e) ==
-    LET cfg == Cfg(e)
-        st  == Status(cfg, e.root)
-    IN IF Cardinality(cfg) # Len(e.defs) THEN {"OutsideDomain"}
-       ELSE IF st = "Unspecified" THEN {"_Unspecified"}
-       ELSE IF st = "Error" THEN (IF e.outcome = "error" THEN {} ELSE {"Error_not_reported"})
-       ELSE IF ValueOf(cfg, e.root, "class") = NoOrigin THEN {"_Unspecified"}    \* nothing to instantiate: not collapsible
-       ELSE IF e.outcome = "error" THEN {"Unexpected_error"}
-       ELSE IF e.outcome # "values" THEN {"Unexpected_exception"}
-       ELSE LET wrong == {j \in DOMAIN e.vals : [name |-> e.vals[j].name, src |-> e.vals[j].src] # ValueOf(cfg, e.root, e.vals[j].k)}
-                own   == Newest(cfg, e.root).keys
-            IN (IF \E j \in wrong : e.vals[j].k \in own THEN {"Own_value_lost"} ELSE {})
-               \cup (IF \E j \in wrong : e.vals[j].k \notin own THEN {"Not_nearest"} ELSE {})
+    LET cfg == Cfg(e) IN
+    IF Cardinality(cfg) # Len(e.defs) THEN {"OutsideDomain"} ELSE JudgeRead(cfg, e.root, e.outcome, e.vals)
 TraceInit == l = 0
 TraceNext == /\ l < Len(Tr)
              /\ l' = l + 1
